@@ -10,6 +10,7 @@ from rdflib.graph import DATASET_DEFAULT_GRAPH_ID
 
 import impl
 from common import err_name, hx, rdflib_stmt_text, rdflib_term_text
+from common import bn_id, iri_s, lit_dt, lit_lang, lit_lex  # noqa: E402
 from impl import IRI, BlankNode, DefaultGraph, Literal, Opts, Triple
 from pyjelly.integrations.rdflib import parse as rparse
 from pyjelly.integrations.rdflib import serialize as rser
@@ -22,11 +23,11 @@ XSD_STRING = "http://www.w3.org/2001/XMLSchema#string"
 def to_rdflib(t):
     """Generic term -> rdflib term (RDF 1.1 only)."""
     if isinstance(t, IRI):
-        return URIRef(t._iri)
+        return URIRef(iri_s(t))
     if isinstance(t, BlankNode):
-        return BNode(t._identifier)
+        return BNode(bn_id(t))
     if isinstance(t, Literal):
-        return RLiteral(t._lex, lang=t._langtag, datatype=None if t._datatype is None else URIRef(t._datatype), normalize=False)
+        return RLiteral(lit_lex(t), lang=lit_lang(t), datatype=None if lit_dt(t) is None else URIRef(lit_dt(t)), normalize=False)
     if t is DefaultGraph:
         return DATASET_DEFAULT_GRAPH_ID
     raise TypeError(t)
@@ -39,12 +40,12 @@ def rdf11(st) -> bool:
         return False
     if len(st) > 3 and not (st[3] is DefaultGraph or isinstance(st[3], (IRI, BlankNode))):
         return False
-    if len(st) > 3 and isinstance(st[3], IRI) and st[3]._iri == "":
+    if len(st) > 3 and isinstance(st[3], IRI) and iri_s(st[3]) == "":
         return False  # rdflib replaces a falsy graph identifier by a fresh blank node
     for t in st:
-        if isinstance(t, BlankNode) and t._identifier == "":
+        if isinstance(t, BlankNode) and bn_id(t) == "":
             return False
-        if isinstance(t, Literal) and t._langtag is not None and not t._langtag.isascii():
+        if isinstance(t, Literal) and lit_lang(t) is not None and not lit_lang(t).isascii():
             return False
     return True
 
